@@ -220,7 +220,7 @@ func genTables(t *rapid.T, size string) []ref.SelTable {
 	n := fw.Range(t, "nTables", 2, 4)
 	largeIdx := fw.Uniform(t, "largeIdx", n)
 	large2 := -1
-	if size == "large" && fw.Pct(t, "twoLarge", 25) {
+	if size == "large" && fw.Pct(t, "twoLarge", 18) {
 		large2 = (largeIdx + 1 + fw.Uniform(t, "large2", n-1)) % n
 	}
 	tables := make([]ref.SelTable, n)
@@ -251,10 +251,10 @@ func genTables(t *rapid.T, size string) []ref.SelTable {
 		case size == "large" && i == largeIdx:
 			rows = fw.Range(t, "rowsLarge", 160, 400)
 		case size == "large" && i == large2:
-			rows = fw.Range(t, "rowsLarge2", 160, 260)
+			rows = fw.Range(t, "rowsLarge2", 160, 220)
 		case size == "medium" && (i == largeIdx || fw.Pct(t, "mediumToo", 60)):
 			rows = fw.Range(t, "rowsMedium", 7, 30)
-		case fw.Pct(t, "emptyTable", 8):
+		case fw.Pct(t, "emptyTable", 4):
 			rows = 0
 		default:
 			rows = fw.Range(t, "rows", 1, 6)
@@ -349,7 +349,7 @@ func (g *genCtx) lit() val.Val {
 		}
 		return v
 	}
-	switch fw.Uniform(g.t, "litKind", 10) {
+	switch fw.Weighted(g.t, "litKind", []int{4, 10, 10, 10, 66}) {
 	case 0:
 		return val.Null
 	case 1, 2, 3:
@@ -387,7 +387,7 @@ var cmpOps = []string{"=", "=", "=", "<>", "<", "<=", ">", ">="}
 
 func (g *genCtx) pred(refs []colRef, depth int) *ref.SelExpr {
 	if depth > 0 && fw.Pct(g.t, "logic", 35) {
-		switch fw.Uniform(g.t, "logicKind", 5) {
+		switch fw.Weighted(g.t, "logicKind", []int{3, 0, 5, 0, 2}) {
 		case 0, 1:
 			return &ref.SelExpr{Kind: "and", Args: []*ref.SelExpr{g.pred(refs, depth-1), g.pred(refs, depth-1)}}
 		case 2, 3:
@@ -794,6 +794,9 @@ func (g *genCtx) query(depth int, outer []ref.SelCol, needLabels bool) (*ref.Sel
 	}
 	visible := concatCols(cols, outer)
 	wherePct := 60
+	if depth > 0 {
+		wherePct = 40
+	}
 	if len(outer) > 0 {
 		wherePct = 85
 	}
@@ -814,7 +817,7 @@ func (g *genCtx) query(depth int, outer []ref.SelCol, needLabels bool) (*ref.Sel
 				q.Where = g.pred(append(refs, orefs...), 1)
 			}
 		} else {
-			q.Where = g.pred(refs, 2)
+			q.Where = g.pred(refs, 1+fw.Uniform(g.t, "whereDepth", 2))
 		}
 	}
 	var labels []string
@@ -1232,6 +1235,11 @@ func checkCase(c selCase) (fw.Outcome, *fw.Violation) {
 	wantText := want
 	if want.Stats.OpenCmp {
 		if wantText, err = ref.SelEval(c.Tables, c.Query, true); err != nil {
+			if se, ok := err.(*ref.SelError); ok && (se.Kind == "too_big" || se.Kind == "no_termination") {
+				o.Discard = true
+				fw.AddExtra("discarded_"+se.Kind, 1)
+				return o, nil
+			}
 			return o, fw.Harness("the reference cannot evaluate %s: %v", sql, err)
 		}
 	}
